@@ -39,8 +39,96 @@ func (c *lcall) storev(i int) lapack.StoreV {
 	return flagByte(c.f[i], []lapack.StoreV{lapack.ColumnWise, lapack.RowWise}, c.salt+i)
 }
 
+func (c *lcall) uplo3(i int) gblas.Uplo {
+	return flagByte(c.f[i], []gblas.Uplo{gblas.Upper, gblas.Lower, gblas.All}, c.salt+i)
+}
+func (c *lcall) svdjob(i int) lapack.SVDJob {
+	return flagByte(c.f[i], []lapack.SVDJob{lapack.SVDAll, lapack.SVDStore, lapack.SVDNone}, c.salt+i)
+}
+func (c *lcall) evjob(i int) lapack.EVJob {
+	return flagByte(c.f[i], []lapack.EVJob{lapack.EVNone, lapack.EVCompute}, c.salt+i)
+}
+func (c *lcall) levjob(i int) lapack.LeftEVJob {
+	return flagByte(c.f[i], []lapack.LeftEVJob{lapack.LeftEVNone, lapack.LeftEVCompute}, c.salt+i)
+}
+func (c *lcall) revjob(i int) lapack.RightEVJob {
+	return flagByte(c.f[i], []lapack.RightEVJob{lapack.RightEVNone, lapack.RightEVCompute}, c.salt+i)
+}
+func (c *lcall) norm4(i int) lapack.MatrixNorm {
+	return flagByte(c.f[i], []lapack.MatrixNorm{lapack.MaxAbs, lapack.MaxColumnSum, lapack.MaxRowSum, lapack.Frobenius}, c.salt+i)
+}
+func (c *lcall) norm2(i int) lapack.MatrixNorm {
+	return flagByte(c.f[i], []lapack.MatrixNorm{lapack.MaxColumnSum, lapack.MaxRowSum}, c.salt+i)
+}
+func (c *lcall) genortho(i int) lapack.GenOrtho {
+	return flagByte(c.f[i], []lapack.GenOrtho{lapack.GenerateQ, lapack.GeneratePT}, c.salt+i)
+}
+func (c *lcall) applyortho(i int) lapack.ApplyOrtho {
+	return flagByte(c.f[i], []lapack.ApplyOrtho{lapack.ApplyQ, lapack.ApplyP}, c.salt+i)
+}
+
 // ltab passes the fields of a call to gonum in the argument order of the API. No arithmetic.
 var ltab = map[string]func(c *lcall){
+	"Dgels": func(c *lcall) {
+		limpl.Dgels(c.trans(0), c.d[0], c.d[1], c.d[2], c.fl["a"], c.ld["a"], c.fl["b"], c.ld["b"], c.fl["work"], c.lwork)
+	},
+	"Dgesvd": func(c *lcall) {
+		limpl.Dgesvd(c.svdjob(0), c.svdjob(1), c.d[0], c.d[1], c.fl["a"], c.ld["a"], c.fl["s"], c.fl["u"], c.ld["u"], c.fl["vt"], c.ld["vt"], c.fl["work"], c.lwork)
+	},
+	"Dsyev": func(c *lcall) {
+		limpl.Dsyev(c.evjob(0), c.uplo(1), c.d[0], c.fl["a"], c.ld["a"], c.fl["w"], c.fl["work"], c.lwork)
+	},
+	"Dsytrd": func(c *lcall) {
+		limpl.Dsytrd(c.uplo(0), c.d[0], c.fl["a"], c.ld["a"], c.fl["d"], c.fl["e"], c.fl["tau"], c.fl["work"], c.lwork)
+	},
+	"Dorgtr": func(c *lcall) {
+		limpl.Dorgtr(c.uplo(0), c.d[0], c.fl["a"], c.ld["a"], c.fl["tau"], c.fl["work"], c.lwork)
+	},
+	"Dgeev": func(c *lcall) {
+		limpl.Dgeev(c.levjob(0), c.revjob(1), c.d[0], c.fl["a"], c.ld["a"], c.fl["wr"], c.fl["wi"], c.fl["vl"], c.ld["vl"], c.fl["vr"], c.ld["vr"], c.fl["work"], c.lwork)
+	},
+	"Dtrcon": func(c *lcall) {
+		limpl.Dtrcon(c.norm2(0), c.uplo(1), c.diag(2), c.d[0], c.fl["a"], c.ld["a"], c.fl["work"], c.iv["iwork"])
+	},
+	"Dgecon": func(c *lcall) { limpl.Dgecon(c.norm2(0), c.d[0], c.fl["a"], c.ld["a"], 1, c.fl["work"], c.iv["iwork"]) },
+	"Dpocon": func(c *lcall) { limpl.Dpocon(c.uplo(0), c.d[0], c.fl["a"], c.ld["a"], 1, c.fl["work"], c.iv["iwork"]) },
+	"Dlansy": func(c *lcall) { limpl.Dlansy(c.norm4(0), c.uplo(1), c.d[0], c.fl["a"], c.ld["a"], c.fl["work"]) },
+	"Dgehrd": func(c *lcall) {
+		limpl.Dgehrd(c.d[0], c.d[1], c.d[2], c.fl["a"], c.ld["a"], c.fl["tau"], c.fl["work"], c.lwork)
+	},
+	"Dorghr": func(c *lcall) {
+		limpl.Dorghr(c.d[0], c.d[1], c.d[2], c.fl["a"], c.ld["a"], c.fl["tau"], c.fl["work"], c.lwork)
+	},
+	"Dgeqp3": func(c *lcall) {
+		limpl.Dgeqp3(c.d[0], c.d[1], c.fl["a"], c.ld["a"], c.iv["jpvt"], c.fl["tau"], c.fl["work"], c.lwork)
+	},
+	"Dgebrd": func(c *lcall) {
+		limpl.Dgebrd(c.d[0], c.d[1], c.fl["a"], c.ld["a"], c.fl["d"], c.fl["e"], c.fl["tauq"], c.fl["taup"], c.fl["work"], c.lwork)
+	},
+	"Dlacpy": func(c *lcall) { limpl.Dlacpy(c.uplo3(0), c.d[0], c.d[1], c.fl["a"], c.ld["a"], c.fl["b"], c.ld["b"]) },
+	"Dlaset": func(c *lcall) { limpl.Dlaset(c.uplo3(0), c.d[0], c.d[1], 2, 3, c.fl["a"], c.ld["a"]) },
+	"Dlange": func(c *lcall) { limpl.Dlange(c.norm4(0), c.d[0], c.d[1], c.fl["a"], c.ld["a"], c.fl["work"]) },
+	"Dlantr": func(c *lcall) {
+		limpl.Dlantr(c.norm4(0), c.uplo(1), c.diag(2), c.d[0], c.d[1], c.fl["a"], c.ld["a"], c.fl["work"])
+	},
+	"Dpbtrs": func(c *lcall) {
+		limpl.Dpbtrs(c.uplo(0), c.d[0], c.d[1], c.d[2], c.fl["a"], c.ld["a"], c.fl["b"], c.ld["b"])
+	},
+	"Dpbtrf": func(c *lcall) { limpl.Dpbtrf(c.uplo(0), c.d[0], c.d[1], c.fl["a"], c.ld["a"]) },
+	"Dtbtrs": func(c *lcall) {
+		limpl.Dtbtrs(c.uplo(0), c.trans(1), c.diag(2), c.d[0], c.d[1], c.d[2], c.fl["a"], c.ld["a"], c.fl["b"], c.ld["b"])
+	},
+	"Dgtsv": func(c *lcall) { limpl.Dgtsv(c.d[0], c.d[1], c.fl["dl"], c.fl["d"], c.fl["du"], c.fl["b"], c.ld["b"]) },
+	"Dptsv": func(c *lcall) { limpl.Dptsv(c.d[0], c.d[1], c.fl["d"], c.fl["e"], c.fl["b"], c.ld["b"]) },
+	"Dorgbr": func(c *lcall) {
+		limpl.Dorgbr(c.genortho(0), c.d[0], c.d[1], c.d[2], c.fl["a"], c.ld["a"], c.fl["tau"], c.fl["work"], c.lwork)
+	},
+	"Dormbr": func(c *lcall) {
+		limpl.Dormbr(c.applyortho(0), c.side(1), c.trans(2), c.d[0], c.d[1], c.d[2], c.fl["a"], c.ld["a"], c.fl["tau"], c.fl["c"], c.ld["c"], c.fl["work"], c.lwork)
+	},
+	"Dormhr": func(c *lcall) {
+		limpl.Dormhr(c.side(0), c.trans(1), c.d[0], c.d[1], c.d[2], c.d[3], c.fl["a"], c.ld["a"], c.fl["tau"], c.fl["c"], c.ld["c"], c.fl["work"], c.lwork)
+	},
 	"Dgetrf": func(c *lcall) { limpl.Dgetrf(c.d[0], c.d[1], c.fl["a"], c.ld["a"], c.iv["ipiv"]) },
 	"Dgetf2": func(c *lcall) { limpl.Dgetf2(c.d[0], c.d[1], c.fl["a"], c.ld["a"], c.iv["ipiv"]) },
 	"Dgetrs": func(c *lcall) {
@@ -205,21 +293,41 @@ func runLapack(raw json.RawMessage, salt int, sum *core.Summary, st *cstats) err
 		// long the work slice is relative to it
 		q := *c
 		q.fl = map[string][]float64{"work": make([]float64, 1)}
-		for _, m := range k.Mats {
-			q.fl[m.Name] = nil
-			q.ld = c.ld
-		}
 		q.ld = map[string]int{}
 		for _, m := range k.Mats {
 			q.ld[m.Name] = m.Ld
 		}
+		q.iv = map[string][]int{}
 		q.lwork = -1
+		// probe: the usual LAPACK idiom, a workspace query with nil matrices and vectors. The documentation
+		// says a query only stores the optimal lwork in work[0]; a package panic is tolerated, a
+		// runtime.Error is not.
 		qo := core.Call(func() { f(&q) })
+		st.nilQueries++
 		opt := 1 << 12
 		if !qo.Panicked {
 			opt = int(q.fl["work"][0])
-		} else if k.Exp == "OK" {
-			fail("query-rejected", "the workspace query of a legal call panicked: "+qo.Text)
+		} else {
+			if qo.Runtime && k.Exp == "OK" {
+				fail("nil-query-runtime-error", "workspace query (lwork=-1) of a legal call with nil matrices and vectors: "+qo.Text)
+			}
+			// second attempt with operands of the lengths of the tuple
+			for _, m := range k.Mats {
+				q.fl[m.Name] = ones(m.Len)
+			}
+			for _, v := range k.Vecs {
+				q.fl[v.Name] = ones(v.Len)
+			}
+			for _, v := range k.IVecs {
+				q.iv[v.Name] = make([]int, v.Len)
+			}
+			q.fl["work"] = make([]float64, 1)
+			qo = core.Call(func() { f(&q) })
+			if !qo.Panicked {
+				opt = int(q.fl["work"][0])
+			} else if k.Exp == "OK" {
+				fail("query-rejected", "the workspace query of a legal call panicked: "+qo.Text)
+			}
 		}
 		if opt < 1 || opt > 1<<20 {
 			fail("query-value", fmt.Sprintf("workspace query returned %v", q.fl["work"][0]))
@@ -260,6 +368,8 @@ func runLapack(raw json.RawMessage, salt int, sum *core.Summary, st *cstats) err
 			switch {
 			case tau:
 				s[j] = 0.5
+			case name == "d":
+				s[j] = float64(16 + (salt+j)%3) // diagonal of a tridiagonal matrix: dominant
 			case ld > 0 && j%(ld+1) == 0:
 				s[j] = float64(16 + (salt+j)%3) // strong diagonal: factorizations and solves stay regular
 			default:
@@ -275,7 +385,7 @@ func runLapack(raw json.RawMessage, salt int, sum *core.Summary, st *cstats) err
 		c.ld[m.Name] = m.Ld
 	}
 	for _, v := range k.Vecs {
-		carve(v.Name, v.Len, 0, v.Name == "tau")
+		carve(v.Name, v.Len, 0, strings.HasPrefix(v.Name, "tau"))
 	}
 	if hasWork {
 		carve("work", workLen, 0, false)
@@ -410,8 +520,15 @@ func runLapack(raw json.RawMessage, salt int, sum *core.Summary, st *cstats) err
 		fail("harness", "unknown expectation "+k.Exp)
 		return nil
 	}
-	if got == gotPkg && len(opChanged) > 0 {
-		fail("write-before-panic", fmt.Sprintf("panicked (%s) after modifying %s", out.Text, changed()))
+	if got == gotPkg {
+		// workspaces are scratch (several drivers store the optimal lwork in work[0] first): only
+		// genuine operands count
+		for nm := range opChanged {
+			if nm != "work" && nm != "iwork" && nm != "w" {
+				fail("write-before-panic", fmt.Sprintf("panicked (%s) after modifying %s", out.Text, changed()))
+				break
+			}
+		}
 	}
 	if got == gotOK && (k.NoWrite == 1 || k.Lwork == -1 && hasWork) {
 		// a zero-sized problem or a workspace query may write work[0] and nothing else
@@ -450,4 +567,12 @@ func signs(d []int) string {
 		}
 	}
 	return b.String()
+}
+
+func ones(n int) []float64 {
+	s := make([]float64, n)
+	for i := range s {
+		s[i] = 1
+	}
+	return s
 }
